@@ -152,6 +152,9 @@ impl Monitor for C02 {
     }
     fn streams(&self, tier: Tier) -> Vec<StreamSpec> {
         let mut s = v2_streams(tier, 10_000);
+        if tier != Tier::Miri {
+            s.push(exhaustive("v2-huge", 18));
+        }
         if tier == Tier::Thorough {
             s.push(exhaustive("v2-all", 1u64 << 32));
             s.push(exhaustive("v2-all-short", 24 * 65536));
@@ -159,6 +162,28 @@ impl Monitor for C02 {
         s
     }
     fn run_case(&self, stream: &str, idx: u64, seed: u64, rec: &mut Recorder) {
+        if stream == "v2-huge" {
+            // a well-formed header at the front of a receive buffer of 2 GiB .. 8 GiB (lazily zeroed
+            // virtual memory): "at least 16 + length bytes are present" whatever follows
+            if !spec::engine::huge_ok() {
+                return;
+            }
+            let mut rng = spec::rng::Rng::for_case(seed, 77, idx);
+            let mut h = Vec::new();
+            let (vc, fp) = valid_ctl(idx);
+            spec::v2::valid_header_budget(&mut rng, &mut h, vc, fp, Some(40));
+            let size = spec::engine::HUGE_SIZES[(idx / 3) as usize % spec::engine::HUGE_SIZES.len()];
+            let want = v2_parse(&h);
+            let got = spec::engine::with_huge(&h, size, |x| v2_parse(x));
+            rec.case(mix(idx ^ 0x4069), true);
+            rec.events(2);
+            match got {
+                None => rec.class("skipped:huge-allocation-refused", || size.to_string()),
+                Some(g) if g == want && want.is_ok() => rec.class("oracle:header-in-a-multi-GiB-buffer", || format!("{} bytes", size)),
+                Some(g) => rec.violation("wrongly-rejected", enc_case("v2", &h), format!("huge-buffer|{}", skeleton_v2(&h)), format!("header {:?} alone gives {}, at the front of a zero-filled buffer of {} bytes it gives {}", show(&h[..h.len().min(24)], 24), want.class(), size, g.class())),
+            }
+            return;
+        }
         match stream {
             "v2-all" => {
                 let ctl = (idx >> 16) as u16;
